@@ -255,7 +255,7 @@ for pid in ids:
             'engine': 'sa',
             'level_claimed': {'category': 'other', 'text': c['text'], 'design_ref': c['ref']},
             'level_note': c['note'],
-            'technique': 'static analysis: ' + c['technique'],
+            'technique': 'static analysis: ' + c['technique'] + '; plus rule Y0: ten defect-shape lints (CFG/def-use based, each with a positive example) over every function of the anchored modules',
         })
 na = [{'property_id': p, 'reason': NA.get(p, 'check not built yet (design in DESIGN.md)')} for p in ids if p not in CHECKS]
 m = {
